@@ -86,6 +86,19 @@ CLAIMS["C09"] = dict(
     design_ref="DESIGN.md §3 C09",
 )
 
+CLAIMS["C11"] = dict(
+    technique="symbolic normal forms of every angle impl vs the normalisation formulas; accessor/unit-chain references per hue type",
+    category="other",
+    text=("For all angles over the reals: normalize_signed/unsigned of f32, f64 and the four SIMD types must equal x-ceil((x+180)/360-1)·360 and "
+          "x-floor(x/360)·360 as exact normal forms (so the six impls agree and the constant 1/360 is exact); angle_eq compares the unsigned "
+          "normal forms; each of the 14 accessors/constructors of the five hue types chains exactly the documented normalisation and unit "
+          "conversion (from_cartesian = pi+atan2(-b,-a) in degrees, into_cartesian = (cos,sin) of the raw radians); PartialEq is angle_eq of "
+          "the raw angles; Add/Sub act on the angle; u8<->float = angle/256·360 and round(unsigned(x)/360·256) with the >255.5 -> 0 wrap "
+          "guarding the cast; rotations are 180/360/128. Does not decide the floating-point claims (range/congruence to within rounding at "
+          "1e6 degrees, equality of exactly representable shifted angles)."),
+    design_ref="DESIGN.md §3 C11",
+)
+
 NOT_YET = "check under construction (see DESIGN.md §7 build order); will be claimed when its rule is armed"
 NA = {}
 
